@@ -682,6 +682,22 @@ theorem pidTok_step {t rest : Str} {p : Int} (e : pidTok t = some (p, [])) (h : 
 theorem needWs_step {w s : Str} (hne : w ≠ []) (hw : ∀ c ∈ w, isWs c = true) (h : NonWsStart s) :
     needWs (w ++ s) = some s := needWs_append w s hne hw h.noWsHead
 
+theorem not_tailTok_of_ws {c : Char} (h : isWs c = true) : isTailTok c = false := by
+  simp only [isWs, Bool.or_eq_true, decide_eq_true_eq] at h
+  rcases h with ((((((((h | h) | h) | h) | h) | h) | h) | h) | h) | h <;> subst h <;> decide
+
+/-- blanks only after the last field: the trailing group is empty -/
+theorem tailFields_allWs (t : Str) (h : ∀ c ∈ t, isWs c = true) : tailFields t = some false := by
+  unfold tailFields
+  have h1 : t.all (fun c => isWs c || isTailTok c) = true := by
+    rw [List.all_eq_true]; intro c hc; rw [h c hc]; rfl
+  have h3 : t.any isTailTok = false := by
+    rw [List.any_eq_false]; intro c hc; rw [not_tailTok_of_ws (h c hc)]; simp
+  rw [h1, h3]
+  cases t with
+  | nil => rfl
+  | cons c _ => simp [h c List.mem_cons_self]
+
 /-- seven tokens, each accepted in full by its recogniser, separated by whitespace: a data line -/
 theorem parseData_seven (lead w1 w2 w3 w4 w5 w6 trail t1 t2 t3 t4 t5 t6 t7 : Str)
     (a b : Nat) (x y z r : Sci) (p : Int)
@@ -716,7 +732,7 @@ theorem parseData_seven (lead w1 w2 w3 w4 w5 w6 trail t1 t2 t3 t4 t5 t6 t7 : Str
   have a6 := floatPrefix_step e6 (wsHead_append (s := t7 ++ trail) n6 h6).noNum
   have b6 := needWs_step n6 h6 (s7.append trail)
   have a7 := pidTok_step e7 (wsHead_of_allWs ht).noNum
-  have d8 := dropWs_allWs trail ht
+  have d8 := tailFields_allWs trail ht
   simp [parseData, d0, a1, b1, a2, b2, a3, b3, a4, b4, a5, b5, a6, b6, a7, extras, d8]
 
 theorem classify_of_parseData {nx : Nat} {l : Str} {row : Row} {tl : Bool}
